@@ -172,7 +172,7 @@ static pid_t process_fork(const int *except, size_t num_except)
 
     r = -errno; // Save `errno`.
 
-    int q = signal_mask(SIG_SETMASK, &mask.new, &mask.old);
+    int q = signal_mask(SIG_SETMASK, &mask.old, NULL);
     ASSERT_UNUSED(q == 0);
 
     pipe_destroy(pipe.read);
